@@ -58,6 +58,7 @@ func c18Members() []bMember {
 		{JSON: `{"jsonrpc":"1.0","method":"echo","params":["y"]}`, ID: "null", Kind: "invalid", WantErr: true},
 		{JSON: `{"jsonrpc":"2.0","id":9,"method":"nope"}`, ID: "9", Kind: "unknown", WantErr: true},
 		{JSON: `{"jsonrpc":"2.0","id":8}`, ID: "8", Kind: "invalid", WantErr: true},
+		{JSON: `{"jsonrpc":"2.0"}`, ID: "null", Kind: "invalid", WantErr: true},
 		{JSON: `{"jsonrpc":"2.0","method":"nope","params":["u"]}`, Kind: "unote"},                    // notification for an unknown method: no response, no handler
 		{JSON: `{"jsonrpc":"2.0","id":null,"method":"echo","params":["z"]}`, Kind: "note", Tag: "z"}, // a notification spelled with a null id
 		// invalid for an unknown extra member; the member names are unique markers: an error object is the
@@ -450,6 +451,7 @@ func c18Scenarios(tier string) []*Scenario {
 			c18Concurrent([]int{2, 0}, Bounds{1, 1, 0}),
 			c18Concurrent([]int{0, 3}, Bounds{1, 1, 0}),
 			c18ConcurrentX([]int{0, 0}, true, Bounds{1, 1, 0}),
+			c18ConcurrentX([]int{1, 0}, true, Bounds{1, 1, 0}), // the caller that hangs up had a batch with two calls in flight
 		}
 	}
 	out := []*Scenario{c18Bodies(3)}
